@@ -8,6 +8,7 @@ mod l_resolve;
 mod l_wasm;
 mod l_lspdoc;
 mod l_syntax;
+mod l_eval;
 
 fn main() {
     let args: Vec<String> = std::env::args().collect();
@@ -21,6 +22,7 @@ fn main() {
         "wasm" => l_wasm::run(),
         "lspdoc" => l_lspdoc::run(),
         "syntax" => l_syntax::run(),
+        "eval" => l_eval::run(),
         _ => {
             eprintln!("usage: oalimpl <layer>");
             std::process::exit(2);
